@@ -154,9 +154,9 @@ func fbProgCases(r *Rand, thorough bool) []fbProgSpec {
 					continue
 				}
 				// the coefficient buffer (256 bytes per block) must fit the stream budget
-				// 8 MiB + 1024 x input length, as it does for a legitimate file of this size
+				// StreamBudgetBase + 1024 x input length, as it does for a legitimate file of this size
 				need := s.blocks()*256 + s.w*8*4 + (1 << 16)
-				if have := 8<<20 + 1024*(16*(s.firstPass+s.refine)+300); have < need {
+				if have := int(fbStreamBudgetOf(16*(s.firstPass+s.refine) + 300)); have < need {
 					s.pad = (need-have)/1024 + 64
 				}
 				specs = append(specs, s)
